@@ -484,6 +484,12 @@ def check(run):
         toks = [(x + ":" + ftxt.get(x[1:17], "")) if x[0] == "d" else x for x in t]
         lines.append("print %d %s" % (pf, " ".join(toks))); meta.append(("print", pf, t, u8ok))
 
+    # the binary form in between (jbl_from_node + jbl_as_json): container roots, member names unique, no NUL bytes
+    for pf, t, u8ok in trees:
+        if t[0] in "[{" and not has_dup_keys(t) and not any(0 in bytes.fromhex(x[1:17] if x[0] == "d" else x[1:]) for x in t if x[0] in "sk"):
+            toks = [(x + ":" + ftxt.get(x[1:17], "")) if x[0] == "d" else x for x in t]
+            lines.append("jprint %d %s" % (pf, " ".join(toks))); meta.append(("jprint", pf, t, u8ok))
+
     # ---------------- unescape, utf8, strtoll
     for i in range(N):
         r = rng.fork()
@@ -648,7 +654,7 @@ def check(run):
     # ---------------- ORACLE 3: arbitrary trees: printed text is valid JSON for the same value; the library reads it back
     back = {mi: k for k, mi in enumerate(meta2)}
     for i, m in enumerate(meta):
-        if m[0] != "print" or i >= len(out_i):
+        if m[0] not in ("print", "jprint") or i >= len(out_i):
             continue
         pf, t, u8ok = m[1], m[2], m[3]
         o = out_i[i].split()
